@@ -563,6 +563,89 @@ impl Doc {
     pub fn to_html(&self) -> String {
         self.to_html_n().0
     }
+    pub fn valid(&self) -> bool {
+        valid_blocks(&self.blocks)
+    }
+}
+
+/// Whether a document satisfies the invariants of the generators (used to keep minimised
+/// counter-examples inside the generated domain).
+pub fn valid_blocks(v: &[Block]) -> bool {
+    fn txt(t: &Txt) -> bool {
+        !t.words.is_empty() && t.words.iter().all(|&n| n >= 1)
+    }
+    fn inl(v: &[Inline]) -> bool {
+        !v.is_empty()
+            && v.iter().all(|i| match i {
+                Inline::Text(t) => txt(t),
+                Inline::El(_, _, k) => inl(k),
+                Inline::A { kids, .. } => inl(kids),
+                Inline::Img { src, alt, .. } => !src.is_empty() && alt.as_ref().map(txt).unwrap_or(true),
+                Inline::Br => true,
+                Inline::Raw(_) => true,
+            })
+    }
+    !v.is_empty()
+        && v.iter().all(|b| match b {
+            Block::P(_, i) | Block::Inl(i) => inl(i),
+            Block::H(l, _, i) => (1..=6).contains(l) && inl(i),
+            Block::Div(_, k) | Block::Quote(_, k) => valid_blocks(k),
+            Block::Ul(_, it) | Block::Ol(_, _, it) => !it.is_empty() && it.iter().all(|x| valid_blocks(&x.kids)),
+            Block::Dl(_, it) => !it.is_empty() && it.iter().all(|x| valid_blocks(&x.kids)),
+            Block::Pre(_, lines) => !lines.is_empty(),
+            Block::Table(t) => {
+                !t.rows.is_empty()
+                    && t.rows.iter().all(|r| !r.cells.is_empty() && r.cells.iter().all(|c| c.kids.is_empty() || valid_blocks(&c.kids)))
+            }
+        })
+}
+
+/// Whether an inline run contains visible text (a text node or an image with alt text).
+pub fn inlines_visible(v: &[Inline]) -> bool {
+    v.iter().any(|i| match i {
+        Inline::Text(_) => true,
+        Inline::El(_, _, k) => inlines_visible(k),
+        Inline::A { kids, .. } => inlines_visible(kids),
+        Inline::Img { alt, .. } => alt.is_some(),
+        _ => false,
+    })
+}
+
+/// Visit every block-level inline run (paragraphs, headings, bare runs) mutably.
+pub fn for_runs_mut(v: &mut [Block], f: &mut dyn FnMut(&mut Vec<Inline>)) {
+    for b in v {
+        match b {
+            Block::P(_, i) | Block::Inl(i) | Block::H(_, _, i) => f(i),
+            Block::Div(_, k) | Block::Quote(_, k) => for_runs_mut(k, f),
+            Block::Ul(_, it) | Block::Ol(_, _, it) => it.iter_mut().for_each(|x| for_runs_mut(&mut x.kids, f)),
+            Block::Dl(_, it) => it.iter_mut().for_each(|x| for_runs_mut(&mut x.kids, f)),
+            Block::Pre(..) => {}
+            Block::Table(t) => t
+                .rows
+                .iter_mut()
+                .for_each(|r| r.cells.iter_mut().for_each(|c| for_runs_mut(&mut c.kids, f))),
+        }
+    }
+}
+
+/// True when every paragraph / heading / bare run has visible text.
+pub fn runs_visible(v: &[Block]) -> bool {
+    let mut ok = true;
+    let mut w = v.to_vec();
+    for_runs_mut(&mut w, &mut |i| ok &= inlines_visible(i));
+    ok
+}
+
+/// Append a text node to every run without visible text; returns how many were changed.
+pub fn ensure_runs_visible(v: &mut [Block]) -> usize {
+    let mut n = 0;
+    for_runs_mut(v, &mut |i| {
+        if !inlines_visible(i) {
+            i.push(Inline::Text(Txt::simple(2)));
+            n += 1;
+        }
+    });
+    n
 }
 
 pub fn blocks_to_html(b: &[Block]) -> String {
@@ -909,6 +992,11 @@ pub fn href() -> BoxedStrategy<String> {
 }
 
 pub fn inlines(g: &G, depth: u32) -> BoxedStrategy<Vec<Inline>> {
+    inlines_in(g, depth, false)
+}
+
+/// Inline runs; `in_link` suppresses nested `<a>` (invalid HTML, re-parented by the parser).
+pub fn inlines_in(g: &G, depth: u32, in_link: bool) -> BoxedStrategy<Vec<Inline>> {
     let mut leaves: Vec<(u32, BoxedStrategy<Inline>)> = vec![(12, txt(g).prop_map(Inline::Text).boxed())];
     if g.imgs {
         leaves.push((
@@ -925,7 +1013,7 @@ pub fn inlines(g: &G, depth: u32) -> BoxedStrategy<Vec<Inline>> {
     let item: BoxedStrategy<Inline> = if depth == 0 {
         leaf
     } else {
-        let sub = inlines(g, depth - 1);
+        let sub = inlines_in(g, depth - 1, in_link);
         let mut tags = vec![ITag::Em, ITag::I, ITag::Strong, ITag::Code, ITag::Span, ITag::Ins];
         if g.strike {
             tags.push(ITag::S);
@@ -948,7 +1036,8 @@ pub fn inlines(g: &G, depth: u32) -> BoxedStrategy<Vec<Inline>> {
                     .boxed(),
             ),
         ];
-        if g.links {
+        if g.links && !in_link {
+            let sub = inlines_in(g, depth - 1, true);
             let name = if g.link_names {
                 prop::option::weighted(0.3, Just("x".to_string())).boxed()
             } else {
